@@ -370,7 +370,8 @@ def run_tot(spec, ctx):
 
     def draw(rng):
         return {'x': rng.choice([-39.5, -9.0, -3.0, 0.0, 0.4, 6.8, 8.5, 30.0, 39.0, 39.9]), 't': rng.choice([1e-8, 1e-5, 1e-3, 1e-2])}
-    alts = [{'x': a, 't': b} for a in (-40.0, -39.0, -38.6, -38.5, -20.0, -8.3, 0.0, 8.3, 20.0, 38.5, 38.6, 39.0, 40.0) for b in (1e-8, 1e-5, 1e-2)]
+    alts = [{'x': a, 't': b} for a in (-40.0, -39.0, -38.6, -38.5, -38.05, -30.0, -24.5, -20.0, -8.3, 0.0, 8.3, 20.0, 24.5, 30.0, 38.05, 38.3, 38.48, 38.5, 38.6, 39.0, 40.0)
+            for b in (1e-8, 1e-5, 1e-2)]
     opts = {'deadline': ctx.deadline, 'guards': 'record', 'guard_timeout': 20000, 'branch_timeout': 10000, 'underflow': True, 'absorption': True}
     for (kind, out), eng in core.iter_paths(lambda: getattr(C, fn)(core.Sym(x), core.Sym(t)), base, draw, opts=opts):
         ctx.paths += 1
@@ -395,8 +396,11 @@ def run_tot(spec, ctx):
                 continue
             inp = core.model_inputs(m, ['x', 't']) if r == 'sat' else dict(alts[0])
             inp['__alt__'] = alts
+            # a divisor that can cancel to (next to) nothing: the float consequence is either an exception or a value far from the
+            # exact one, so vt / wt witnesses are measured against mpmath with the property's own budget (clause 'cond')
+            clause_ = 'cond' if (fn in ('vt', 'wt') and 'cancellation' in what) else 'defined'
             ctx.ob(f'{fn}: guard {what} cannot be refuted under the underflow model: {str(cond)[:120]}', 'sat',
-                   {'mode': 'fn', 'fn': fn, 'clause': 'defined', 'inputs': inp})
+                   {'mode': 'fn', 'fn': fn, 'clause': clause_, 'inputs': inp})
         ctx.ob(f'{fn}: path {[str(c)[:60] for c in eng.pc]} returns normally', 'unsat' if not eng.open_guards else 'unknown',
                sample={'function': fn, 'clause': 'totality under the underflow model', 'guards_refuted': n_ok, 'path_condition': [str(c)[:100] for c in eng.pc]})
         ctx.add_engine(eng)
